@@ -36,5 +36,6 @@ META = {'title': 'Displayed picture is the standard decode of the ULA-visible sc
                'Emulator with recording frame buffers, the executable stdDecode adjudicating.',
  'level_note': COMMON_NOTE + ' The two address tables (6144 entries each) are proved by `decide +kernel` (kernel '
                'evaluation, no native axiom). Partial: the correspondence is sampled (seeded), not exhaustive; '
-               'execute_poke violates the property on the unchanged tree (open finding '
-               'C08/stable-frame/stale-writer=poke, repair in proposed_fixes/C08-1.diff).'}
+               'execute_poke violated the property on the pinned tree (finding '
+               'C08/stable-frame/stale-writer=poke, repaired in /repo by fix commit b0d1908, see known_findings.json; '
+               'the model variant matching the tree under test is detected on every run).'}
